@@ -99,11 +99,14 @@ Definition index_of (counter' mask : Z) : Z := Z.land counter' mask.
 (* ------------------------------------------------------------------ the C09 system *)
 Record cfg := {
   mask : Z;
-  early_enq : bool     (* reverse.Caller queues the call for the peer before registering the result channel *)
+  early_enq : bool;    (* reverse.Caller queues the call for the peer before registering the result channel *)
+  skip_pending : bool  (* store refuses an index that a pending call holds and the caller draws the next one
+                          (rpc/udp since 7acbe6f) *)
 }.
-Definition cfg_socket : cfg := {| mask := mask31; early_enq := false |}.   (* also websocket *)
-Definition cfg_udp : cfg := {| mask := mask15; early_enq := false |}.
-Definition cfg_reverse : cfg := {| mask := mask31; early_enq := true |}.
+Definition cfg_socket : cfg := {| mask := mask31; early_enq := false; skip_pending := false |}.   (* also websocket *)
+Definition cfg_udp : cfg := {| mask := mask15; early_enq := false; skip_pending := true |}.
+Definition cfg_udp_old : cfg := {| mask := mask15; early_enq := false; skip_pending := false |}.  (* udp before 7acbe6f *)
+Definition cfg_reverse : cfg := {| mask := mask31; early_enq := true; skip_pending := false |}.
 
 (* what Transport returned: a response body (with its provenance: the request the peer was
    answering when it produced it, None for a frame the peer made up), the error the connection
@@ -118,6 +121,7 @@ Inductive status :=
 (* one caller; its identity is the value of the counter it drew (unique per connection / Caller) *)
 Record caller := {
   ckey : key;               (* (destination, index) *)
+  cdraw : Z;                (* the counter value of its (latest) draw: index = cdraw & mask *)
   cenq : bool;              (* the request has been handed to the sender / queued for the provider *)
   cbox : option outcome;    (* content of resultChan (capacity 1) *)
   cstat : status
@@ -160,11 +164,13 @@ Definition set_pending (st : mstate) (t : table) : mstate :=
      answerable := answerable st; inflight := inflight st |}.
 
 Definition with_box (o : option outcome) (c : caller) : caller :=
-  {| ckey := ckey c; cenq := cenq c; cbox := o; cstat := cstat c |}.
+  {| ckey := ckey c; cdraw := cdraw c; cenq := cenq c; cbox := o; cstat := cstat c |}.
 Definition with_stat (s : status) (c : caller) : caller :=
-  {| ckey := ckey c; cenq := cenq c; cbox := cbox c; cstat := s |}.
+  {| ckey := ckey c; cdraw := cdraw c; cenq := cenq c; cbox := cbox c; cstat := s |}.
 Definition with_enq (c : caller) : caller :=
-  {| ckey := ckey c; cenq := true; cbox := cbox c; cstat := cstat c |}.
+  {| ckey := ckey c; cdraw := cdraw c; cenq := true; cbox := cbox c; cstat := cstat c |}.
+Definition with_draw (n : Z) (m : Z) (c : caller) : caller :=
+  {| ckey := (fst (ckey c), index_of n m); cdraw := n; cenq := cenq c; cbox := cbox c; cstat := cstat c |}.
 
 Fixpoint take_nth {X} (n : nat) (l : list X) : option (X * list X) :=
   match l, n with
@@ -191,14 +197,23 @@ Definition step (c : cfg) (st : mstate) (l : label) : option mstate :=
   | LAlloc dest =>
       let n := counter st + 1 in
       Some {| counter := n; pending := pending st;
-              callers := (n, {| ckey := (dest, index_of n (mask c)); cenq := false; cbox := None; cstat := SAlloc |})
+              callers := (n, {| ckey := (dest, index_of n (mask c)); cdraw := n; cenq := false; cbox := None; cstat := SAlloc |})
                          :: callers st;
               answerable := answerable st; inflight := inflight st |}
   | LStore k =>
       match c_find k st with
       | Some cr =>
           match cstat cr with
-          | SAlloc => Some (set_pending (upd_caller k (with_stat SStored) st) (t_store (ckey cr) k (pending st)))
+          | SAlloc =>
+              if skip_pending c && (match t_find (ckey cr) (pending st) with Some _ => true | None => false end) then
+                (* store reports false: nothing is registered, the caller draws the next index *)
+                if cenq cr then None
+                else
+                  let n := counter st + 1 in
+                  Some {| counter := n; pending := pending st;
+                          callers := a_upd Z.eqb k (with_draw n (mask c)) (callers st);
+                          answerable := answerable st; inflight := inflight st |}
+              else Some (set_pending (upd_caller k (with_stat SStored) st) (t_store (ckey cr) k (pending st)))
           | _ => None
           end
       | None => None
@@ -286,21 +301,58 @@ Definition dead (st : mstate) (k : Z) (cr : caller) : bool :=
   | _ => false
   end.
 
-(* no_reuse: an index is only issued when every earlier call that drew the same index is dead *)
+(* caller k cannot be confused with anybody: it has only drawn an index (neither registered nor
+   handed to the peer), or it is dead *)
+Definition harmless (st : mstate) (k : Z) (cr : caller) : bool :=
+  match cstat cr with
+  | SAlloc => negb (cenq cr)
+  | _ => false
+  end || dead st k cr.
+
+(* will this LStore register (true) or be refused and redraw (false)? *)
+Definition registers (c : cfg) (st : mstate) (cr : caller) : bool :=
+  negb (skip_pending c && (match t_find (ckey cr) (pending st) with Some _ => true | None => false end)).
+
+Definition others_harmless (st : mstate) (k : Z) (cr : caller) : bool :=
+  forallb (fun kc => (fst kc =? k) || negb (keqb (ckey (snd kc)) (ckey cr)) || harmless st (fst kc) (snd kc)) (callers st).
+
+(* no_reuse: a caller registers under an index (or, in reverse, hands its call to the provider before
+   registering) only when every other call that drew the same index is harmless *)
 Definition no_reuse_step (c : cfg) (st : mstate) (l : label) : bool :=
   match l with
-  | LAlloc dest =>
-      let i := (dest, index_of (counter st + 1) (mask c)) in
-      forallb (fun kc => negb (keqb (ckey (snd kc)) i) || dead st (fst kc) (snd kc)) (callers st)
+  | LStore k =>
+      match c_find k st with
+      | Some cr => if registers c st cr then others_harmless st k cr else true
+      | None => true
+      end
+  | LEnq k =>
+      match c_find k st with
+      | Some cr => match cstat cr with SAlloc => others_harmless st k cr | _ => true end
+      | None => true
+      end
   | _ => true
   end.
 
-(* the sufficient condition of C09_no_reuse_bound: fewer than mask+1 calls (the new one included)
-   have been issued since every call that is not dead *)
+(* the sufficient condition of C09_no_reuse_bound: every other call that is not harmless made its draw
+   fewer than mask+1 draws away from this caller's *)
+Definition others_near (c : cfg) (st : mstate) (k : Z) (cr : caller) : bool :=
+  forallb (fun kc => (fst kc =? k) ||
+                     ((0 <? Z.abs (cdraw cr - cdraw (snd kc))) && (Z.abs (cdraw cr - cdraw (snd kc)) <=? mask c)) ||
+                     harmless st (fst kc) (snd kc))
+          (callers st).
+
 Definition window_step (c : cfg) (st : mstate) (l : label) : bool :=
   match l with
-  | LAlloc dest =>
-      forallb (fun kc => (counter st + 1 - fst kc <=? mask c) || dead st (fst kc) (snd kc)) (callers st)
+  | LStore k =>
+      match c_find k st with
+      | Some cr => if registers c st cr then others_near c st k cr else true
+      | None => true
+      end
+  | LEnq k =>
+      match c_find k st with
+      | Some cr => match cstat cr with SAlloc => others_near c st k cr | _ => true end
+      | None => true
+      end
   | _ => true
   end.
 
@@ -348,6 +400,13 @@ Definition wrap_witness_lost (n : nat) : list label :=
   let b := 2 + Z.of_nat n in
   [LAlloc 0; LStore 1; LEnq 1] ++ quick_calls 2 n ++
   [LAlloc 0; LStore b; LEnq b; LAnswer b; LDeliver 0; LTake b; LAnswer 1; LDeliver 0].
+
+(* the same schedule against the repaired allocation: the late call's first store is refused, it draws the
+   next index and registers there; the reply to request 1 reaches caller 1 *)
+Definition wrap_witness_new (n : nat) : list label :=
+  let b := 2 + Z.of_nat n in
+  [LAlloc 0; LStore 1; LEnq 1] ++ quick_calls 2 n ++
+  [LAlloc 0; LStore b; LStore b; LEnq b; LAnswer 1; LDeliver 0; LTake 1; LAnswer b; LDeliver 0; LTake b].
 
 (* a caller still waiting with an empty channel whose entry is gone from the table:
    only its context can end the call *)
